@@ -3100,10 +3100,7 @@ https://gcc.gnu.org/bugzilla/show_bug.cgi?id=47485'''))
         rel_obj += '.' + self.environment.machines[target.for_machine].get_object_suffix()
         commands += self.get_compile_debugfile_args(compiler, target, rel_obj)
         if isinstance(src, File):
-            if src.is_built:
-                rel_src = src.fname
-            else:
-                rel_src = src.rel_to_builddir(self.build_to_src)
+            rel_src = src.rel_to_builddir(self.build_to_src)
         else:
             raise InvalidArguments(f'Invalid source type: {src!r}')
         # Write the Ninja build command
